@@ -5,6 +5,7 @@
 //!   vh worker <kind>                                     one scenario on stdin, observations on stdout
 mod bigdec;
 mod eng;
+mod gen_soup;
 mod gen_syntax;
 mod model;
 mod props;
